@@ -1,12 +1,13 @@
 #!/bin/bash
 # usage: run_thorough.sh [seed] [ids...]   - thorough tier of every (or the given) property, sequentially; logs + evidence copies under scratch/thorough
+root=$(cd "$(dirname "$0")/.." && pwd)
 seed=${1:-20260926}; shift
 ids=${@:-C15 C16 C17 C20 C10 C09 C19 C14 C02 C12 C11 C18 C08 C05 C01}
-mkdir -p /verif/scratch/thorough /verif/evidence/thorough
+mkdir -p $root/scratch/thorough $root/evidence/thorough
 for id in $ids; do
   start=$(date +%s)
-  /verif/check $id --tier thorough --seed $seed > /verif/scratch/thorough/$id.log 2>&1
+  $root/check $id --tier thorough --seed $seed > $root/scratch/thorough/$id.log 2>&1
   rc=$?
-  cp /verif/evidence/$id.json /verif/evidence/thorough/$id.json 2>/dev/null
-  echo "$id seed=$seed exit=$rc wall=$(( $(date +%s) - start ))s $(grep -a '^done' /verif/scratch/thorough/$id.log | tail -1)" >> /verif/scratch/thorough/SUMMARY.txt
+  cp $root/evidence/$id.json $root/evidence/thorough/$id.json 2>/dev/null
+  echo "$id seed=$seed exit=$rc wall=$(( $(date +%s) - start ))s $(grep -a '^done' $root/scratch/thorough/$id.log | tail -1)" >> $root/scratch/thorough/SUMMARY.txt
 done
